@@ -90,9 +90,11 @@ CHECKS = {
          "Assumptions: per-query literal code-length class vector, swept completely. Trusted: cbmc, spec/rfc1951.h (self-tested against zlib)."),
  "C10": dict(
     engine="cbmc-c", category="model_checking", design_ref="DESIGN.md §5b C10",
-    technique="CBMC: avail_out sweep on exact-size output objects for the one-shot API; stored-block fallback with SYMBOLIC n <= 200000 and a range-recording memcpy; parameter validation with fully symbolic level/flush/level_buf_size",
+    engine_note="+ x86sym for encode_deflate_icf_04/06",
+    technique="CBMC: avail_out sweep on exact-size output objects for the one-shot API; stored-block fallback with SYMBOLIC n <= 200000 and a range-recording memcpy; parameter validation with fully symbolic level/flush/level_buf_size; symbolic execution (x86sym + z3) of the assembled ICF bit emitters",
     text="(a) avail_out 0..bound+9 for n <= 2 (3): COMP_OK whenever avail_out >= n+5*blocks+wrapper, a COMP_OK result is a complete correct stream, no byte written past avail_out, counters consistent. (b) stored fallback for all n <= 200000 symbolically: block count, LEN/NLEN, BFINAL on the last block only, "
-         "tiling of the input, total_out formula, no arithmetic wrap. (c) every invalid level/flush/level buffer is rejected with the documented code before any output.",
+         "tiling of the input, total_out formula, no arithmetic wrap; the real stored_len arithmetic at the 65535-byte boundaries. (c) every invalid level/flush/level buffer is rejected with the documented code before any output. "
+         "(d) engine B on the assembly bit emitters encode_deflate_icf_04/06: all stores inside the bit buffer, emitted bits equal the ICF encoding specification for symbolic code bits.",
     note="Streaming termination is asserted in C07's bounded call loops. Levels 1-3 outside. Doc/code mismatch noted: undersized level_buf returns ISAL_INVALID_LEVEL (documented ISAL_INVALID_LEVEL_BUF); the check accepts either."),
  "C07": dict(
     engine="cbmc-c", category="model_checking", design_ref="DESIGN.md §5b C07",
